@@ -18,7 +18,8 @@ LEVEL_TEXT = ("Machine-checked proof (Coq, closed under the global context) that
               "written values fit their wire widths, unpack (pack a ++ anything) consumes exactly the encoding and "
               "returns flags = exactly the set of written fields, every present field with its value (64-bit size, "
               "32-bit mode, uid/gid and atime/mtime as pairs, extended pairs in order as bytes), every absent field "
-              "absent, and unpaired uid/gid or atime/mtime absent (not representable on the wire); pack is total on "
+              "absent, and unpaired uid/gid or atime/mtime absent (not representable on the wire); _pack's bytes and "
+              "resulting flags are independent of the _flags the object held before (any decode/encode/edit history); pack is total on "
               "in-range values; the pre-repair _unpack is proved to swap extended key and value. The model is tied "
               "to sftp_attr.py by a differential run of the model's own definitions against the real code each run.")
 LEVEL_NOTE = ("Trusted: Coq kernel + vm_compute; hand-written model coq/Model/C33.v (+ Message primitives of "
@@ -106,9 +107,8 @@ def gen_spec(rng, presence, ext_nonempty, malformed=False, dup=False):
 # --------------------------------------------------------------------------- driving the real code
 
 
-def build(spec):
-    from paramiko.sftp_attr import SFTPAttributes
-    a = SFTPAttributes()
+def fill(a, spec, fresh_dict=True):
+    """Make the object carry exactly spec's fields (editing it in place when it already has some)."""
     a.st_size, a.st_uid, a.st_gid, a.st_mode = spec["size"], spec["uid"], spec["gid"], spec["mode"]
     at, mt = spec["atime"], spec["mtime"]
     if spec.get("float_times"):
@@ -118,9 +118,32 @@ def build(spec):
         if at is not None and int(at) != spec["atime"] or mt is not None and int(mt) != spec["mtime"]:
             at, mt = spec["atime"], spec["mtime"]      # float precision lost: keep the ints
     a.st_atime, a.st_mtime = at, mt
+    if fresh_dict:
+        a.attr = {}
+    else:
+        a.attr.clear()
     for kt, kh, vt, vh in spec["ext"]:
         a.attr[py_obj(kt, kh)] = py_obj(vt, vh)
     return a
+
+
+def build(spec):
+    from paramiko.sftp_attr import SFTPAttributes
+    return fill(SFTPAttributes(), spec)
+
+
+def pack_existing(a):
+    """_pack of an object that may have a history: (raw or None, canonical result ++ -1 ++ flags afterwards)."""
+    from paramiko.message import Message
+    m = Message()
+    try:
+        a._pack(m)
+    except struct.error:
+        return None, [12, -1] + enc_z(a._flags)
+    except TypeError:
+        return None, [10, -1] + enc_z(a._flags)
+    raw = m.asbytes()
+    return raw, [0] + list(raw) + [-1] + enc_z(a._flags)
 
 
 def impl_pack(spec):
@@ -274,6 +297,92 @@ def oracle(ctx, spec):
     return raw
 
 
+MODES = ["decode-edit-encode", "encode-edit-encode", "from-stat-edit-encode", "preset-flags"]
+
+
+def gen_second(rng, first):
+    """Fields after the edit: some kept, some removed, some added / changed."""
+    fresh = gen_spec(rng, [rng.random() < 0.6 for _ in FIELDS], rng.random() < 0.5)
+    second = dict(fresh)
+    for name in FIELDS:
+        r = rng.random()
+        if r < 0.35:
+            second[name] = first[name]
+        elif r < 0.65:
+            second[name] = None
+    r = rng.random()
+    if r < 0.3:
+        second["ext"] = [list(x) for x in first["ext"]]
+    elif r < 0.65:
+        second["ext"] = []
+    return second
+
+
+def history_case(ctx, case):
+    """An object that was decoded / encoded / built by from_stat before, then edited, then encoded:
+    the encoding and the flags must be those of the fields it carries now.
+    Returns (prior flags, canonical result of the second _pack) for the model, or None."""
+    import types
+    from paramiko.sftp_attr import SFTPAttributes
+    first, second, mode = case["first"], case["second"], case["mode"]
+    _, _, _, wire1 = expected_of(first)
+    if mode == "decode-edit-encode":
+        st, res = impl_unpack(wire1)
+        if st != "ok":
+            return None
+        a = res[1]
+    elif mode == "encode-edit-encode":
+        a = build(first)
+        pack_existing(a)
+    elif mode == "from-stat-edit-encode":
+        ug = first["uid"] is not None and first["gid"] is not None
+        tm = first["atime"] is not None and first["mtime"] is not None
+        if first["size"] is None or first["mode"] is None or not ug or not tm:
+            return None
+        ns = types.SimpleNamespace(st_size=first["size"], st_uid=first["uid"], st_gid=first["gid"],
+                                   st_mode=first["mode"], st_atime=first["atime"] + 0.5,
+                                   st_mtime=first["mtime"] + 0.5)
+        a = SFTPAttributes.from_stat(ns, filename="f")
+        plain = dict(first, ext=[])
+        raw0, _ = pack_existing(a)
+        if raw0 != expected_of(plain)[3] or a._flags != expected_of(plain)[0]:
+            ctx.fail("from-stat-encode", "an object built by from_stat is not encoded with exactly its fields",
+                     case=case, expected=expected_of(plain)[3], observed=raw0)
+    else:
+        a = build(first)
+        a._flags = case["prior"]
+    prior = a._flags
+    fill(a, second, fresh_dict=case.get("fresh_dict", True))
+    raw, canon = pack_existing(a)
+    flags, fields, ext, wire = expected_of(second)
+    if raw is None:
+        ctx.fail("stale-flags-reencode-raises",
+                 "_pack of a previously decoded/encoded and then edited object raises although its fields are valid "
+                 "(flags left over from the earlier call are used)", case=case, expected=wire,
+                 observed={10: "TypeError", 12: "struct.error"}[canon[0]])
+        return prior, canon
+    if raw != wire or a._flags != flags:
+        ctx.fail("stale-flags-reencode",
+                 "_pack of a previously decoded/encoded and then edited object does not encode exactly the fields "
+                 "it carries now (flags left over from the earlier call leak into the encoding)",
+                 case=case, expected={"flags": flags, "wire": wire}, observed={"flags": a._flags, "wire": raw})
+        return prior, canon
+    st, res = impl_unpack(raw)
+    if st == "ok":
+        b = res[1]
+        got = {"size": b.st_size, "uid": b.st_uid, "gid": b.st_gid, "mode": b.st_mode,
+               "atime": b.st_atime, "mtime": b.st_mtime}
+        gext = [(bytes(k), bytes(v)) for k, v in b.attr.items()]
+        if got != fields or gext != ext or b._flags != flags or res[2] != len(raw):
+            ctx.fail("history-roundtrip", "decode / edit / encode / decode does not yield the edited fields",
+                     case=case, expected={"fields": fields, "ext": ext, "flags": flags},
+                     observed={"fields": got, "ext": gext, "flags": b._flags})
+    else:
+        ctx.fail("history-roundtrip", "_unpack raises or hangs on the re-encoded object", case=case,
+                 expected=fields, observed=repr(res))
+    return prior, canon
+
+
 # --------------------------------------------------------------------------- Coq literals
 
 
@@ -341,7 +450,8 @@ def run(ctx):
                 "mode/atime/mtime (so also unpaired ids / times) x extended map empty / non-empty, values from the "
                 "32-/64-bit boundary sets and random, str and bytes keys/values incl. empty and non-ASCII, float "
                 "times, random trailing bytes; a malformed stream (out-of-range values, byte-colliding keys, "
-                "truncated / re-flagged / duplicate-key / random blocks); non-trivial = distinct case with at "
+                "truncated / re-flagged / duplicate-key / random blocks); objects with a history (decode -> edit -> "
+                "encode -> decode, encode / edit / encode, from_stat objects, preset _flags); non-trivial = distinct case with at "
                 "least one field or extended pair present (or a non-empty buffer)")
     ctx.trusted += ["model coq/Model/C33.v is hand-written; tied to paramiko/sftp_attr.py (_pack, _unpack, _from_msg) "
                     "by this differential run (vm_compute of the model's own definitions, no extraction)",
@@ -410,10 +520,41 @@ def run(ctx):
     if cases:
         ctx.sample({"unpack": {"buf": cases[0][0], "impl": cases[0][1]}})
 
+    # ---- 3. objects with a history: _flags persists on the object between calls --------------------------
+    # decode -> edit (remove / add fields) -> encode -> decode; encode twice with edits in between; objects
+    # built by from_stat; objects whose _flags hold an arbitrary earlier value
+    cases = []
+    for i in range(1600 if ctx.thorough else 240):
+        mode = MODES[i % len(MODES)]
+        presence = [rng.random() < (0.95 if mode.startswith("from-stat") else 0.65) for _ in FIELDS]
+        first = gen_spec(rng, presence, rng.random() < 0.6)
+        first["float_times"] = False
+        if not in_range(first):
+            continue
+        case = {"first": first, "second": gen_second(rng, first), "mode": mode, "fresh_dict": rng.random() < 0.5}
+        if mode == "preset-flags":
+            case["prior"] = rng.choice([0xF, FLAG_EXTENDED, FLAG_EXTENDED | 0xF, 0xFFFFFFFF, 0x10, 0x7FFFFFF0,
+                                        rng.getrandbits(4), rng.getrandbits(4) | FLAG_EXTENDED, rng.getrandbits(32)])
+        r = history_case(ctx, case)
+        if r is None:
+            continue
+        ctx.count(("history", repr(case)), kind="history-" + mode)
+        cases.append((case, r[0], r[1]))
+    bad = ctx.model_mismatches("run_pack_obj", "(Z * attrs)",
+                               [("(%s, %s)" % (coq(pr), coq_attrs(c["second"])), canon) for c, pr, canon in cases])
+    for i in bad[:3]:
+        ctx.disagree("_pack of an object with prior _flags differs from model", case=cases[i][0], impl=cases[i][2])
+    if cases:
+        ctx.sample({"history": {"case": cases[0][0], "prior_flags": cases[0][1], "impl": cases[0][2]}})
+
 
 def replay(ctx, rep):
     case = rep.get("case")
-    if isinstance(case, dict) and "ext" in case:
+    if isinstance(case, dict) and "first" in case and "second" in case:
+        ctx.count(("replay", repr(case)))
+        ctx.count(("replay2", repr(case)))
+        history_case(ctx, case)
+    elif isinstance(case, dict) and "ext" in case:
         ctx.count(("replay", repr(case)))
         ctx.count(("replay2", repr(case)))
         oracle(ctx, case)
